@@ -12,6 +12,8 @@ From SCC Require Import Base.Sexp Lang.AxSyn Sem.AxSem Model.ParMoves Model.Back
 Import ListNotations.
 Open Scope Z_scope.
 Open Scope list_scope.
+(* names that lived in this file before they moved to Proof/SimFrag.v (kept for qualified uses) *)
+Notation NoDup_app_tail := SimFrag.NoDup_app_tail (only parsing).
 
 (* ---------- the image built from an instruction list ---------- *)
 Lemma build_code_below : forall cs i a im j, (j < i)%positive -> PM.find j (code (build cs i a im)) = PM.find j (code im).
@@ -42,8 +44,6 @@ Proof.
   intros NH. unfold label_names, defined_labels. rewrite !in_flat_map. intros (c & Hc & Hl). exists c. split; auto.
   destruct c; try (now destruct Hl). destruct Hl as [<-|[]]. rewrite NH. now left.
 Qed.
-Lemma NoDup_app_tail {X} (a b : list X) : NoDup (a ++ b) -> NoDup b.
-Proof. induction a as [|x a IH]; cbn; auto. intros H. inversion H; auto. Qed.
 Lemma build_labels_nh : forall cs i a im, NoDup (defined_labels cs) -> labels_at_nh (build cs i a im) i cs.
 Proof.
   induction cs as [|c r IH]; intros i a im Hnd n l Hn NH; [destruct n; discriminate|].
